@@ -93,6 +93,47 @@ def pipeline_function(em):
     return views
 
 
+def rule_entries_always_run_pipeline(em, rep, rid):
+    rep.rule(rid, 'the library entry points run the compile pipeline on the input of this very call, on every path that returns: '
+                  'no return of compile_prolog_from_string / compile_prolog_from_file is reachable without passing a call that '
+                  'leads to the pipeline (a result remembered from an earlier call was decided on an earlier text)')
+    comp = em.repo.module('compiler')
+    pipe = pipeline_function(em)[0].origin
+    n = 0
+
+    def reaches(g, seen=None):
+        seen = seen if seen is not None else set()
+        if g is pipe:
+            return True
+        if g in seen:
+            return False
+        seen.add(g)
+        return any(reaches(c, seen) for _, cs in em.cg.calls.get(g, ()) for c in cs if c.module is comp)
+    for name in ('compile_prolog_from_string', 'compile_prolog_from_file'):
+        f = comp.functions.get(name)
+        if f is None:
+            continue
+        n += 1
+        if f is pipe:
+            rep.ok(rid, f.qname, 'is the pipeline itself', f.loc())
+            continue
+        cfg = em.cfg(f)
+
+        def runs_pipeline(m):
+            if m.kind != 'call' or not isinstance(m.ast, ast.Call):
+                return False
+            return any(reaches(c) for c in em.cg.resolve_callable(f, m.ast.func) if c.module is comp)
+        path = cfg.g.find_path(cfg.entry, lambda m: m.kind == 'return' or (m.kind == 'exit' and m.info == 'fall'),
+                               avoid=runs_pipeline, edge_ok=lambda lbl, a, b: lbl not in ('exc', 'throw', 'close'))
+        if path is not None:
+            rep.violation(rid, f.qname, 'a path returns without running the pipeline on the input of this call: the result is not '
+                          'decided on the text that was given (a damaged text can be answered with code produced earlier)', f.loc(),
+                          cfg.describe_path(path))
+        else:
+            rep.ok(rid, f.qname, 'every returning path passes a call that leads to %s' % pipe.qname, f.loc())
+    rep.minimum('library entry points', n, 2)
+
+
 def aliases(f, name):
     """the local names that are the same object as ``name``: connected by plain ``a = b`` assignments"""
     out = {name}
